@@ -372,6 +372,8 @@ def check(chk):
         chk.ob("TABLE-8", "%s.subscribe waits for events the game actually posts" % cls, bool(names) and names <= posted_lits, f_.where(),
                detail="waits %s" % sorted(names), construct=f_.ident, text="%s waits %s" % (cls, sorted(names - posted_lits)))
 
+    _producers(chk, repo)
+
     # ------------------------------------------------------------ PAIR-19
     f = repo.func("mpf/core/config_player.py", "ConfigPlayer._update_subscription")
     chk.analysed(f)
@@ -432,6 +434,110 @@ def check(chk):
     st = [x for x in walk_local(f.node) if isinstance(x, ast.Assign) and src(x.targets[0]) == "subscription_list[template]"]
     chk.ob("PAIR-19", "the live subscription is stored where unload cancels it", bool(st) and src(st[0].value) == "subscription", f.where(), construct=f.ident,
            text="subscription stored")
+
+
+def _producers(chk, repo):
+    """NOTIFY-1: the producer side of subscriptions.  A subscribed template is woken again after every change of what it read:
+    machine variables post their event whenever the value changed; monitored device attributes resolve every future waiting
+    for that attribute, after the new value is stored, whenever old != new."""
+    from sa.cfg import build_cfg
+    mv = repo.func("mpf/core/machine_vars.py", "MachineVariables.set_machine_var")
+    chk.analysed(mv)
+    cfg = mv.cfg()
+    posts = [(n, c) for n, c in cfg.calls_named("post") if c.args and _prefix(c.args[0]) == "machine_var_"]
+    chk.need(len(posts) == 1, "NOTIFY-1", "set_machine_var posts machine_var_<name>", mv)
+    n, c = posts[0]
+    g = {k: v for k, v in cfg.guards_at(n.id).items()}
+    chk.ob("NOTIFY-1", "the machine-variable event is posted whenever the value changed (no other condition)", canon_only(g, "change"), mv.where(c),
+           detail=str(sorted(g.items())), construct=mv.ident, text="machine var post guard")
+    chk.ob("NOTIFY-1", "the event names the variable that changed", src(c.args[0]).replace('"', "'") == "'machine_var_' + name", mv.where(c), construct=mv.ident,
+           text="machine var event name")
+    st = [x for x in cfg.nodes if x.kind == "stmt" and isinstance(x.ast, ast.Assign) and src(x.ast.targets[0]).replace('"', "'") == "self.machine_vars[name]['value']"]
+    ok = len(st) == 1 and src(st[0].ast.value) == "value" and cfg.dominates(st[0].id, n.id) and cfg.path_avoiding(cfg.entry.id, [x.id for x in cfg.nodes if x.kind == "exit"], [st[0].id]) is None
+    chk.ob("NOTIFY-1", "the new value is stored on every path, before the event is posted (a woken template reads the new value)", ok, mv.where(), construct=mv.ident,
+           text="machine var store before post")
+    chg = [x for x in ast.walk(mv.node) if isinstance(x, ast.Assign) and src(x.targets[0]) == "change"]
+    vals = sorted(src(x.value) for x in chg)
+    ok = vals == sorted(["True", "value - prev_value", "prev_value != value"]) or vals == sorted(["True", "value - prev_value", "value != prev_value"])
+    chk.ob("NOTIFY-1", "`change` is true for a new variable, value - previous for numbers and previous != value otherwise", ok, mv.where(), detail=str(vals),
+           construct=mv.ident, text="machine var change computation")
+    pv = [x for x in ast.walk(mv.node) if isinstance(x, ast.Assign) and src(x.targets[0]) == "prev_value" and src(x.value) != "None"]
+    ok = len(pv) == 1 and src(pv[0].value).replace('"', "'") == "self.machine_vars[name]['value']"
+    if ok and st:
+        pn = [x for x in cfg.nodes if x.kind == "stmt" and x.ast is pv[0]][0]
+        ok = st[0].id in cfg.reachable([pn.id], include_start=False) and pn.id not in cfg.reachable([st[0].id], include_start=False)
+    chk.ob("NOTIFY-1", "the previous value is read before the new one is stored", ok, mv.where(), construct=mv.ident, text="machine var prev before store")
+
+    dm = repo.func("mpf/core/device_monitor.py", "DeviceMonitor.__call__")
+    chk.analysed(dm)
+    inner = {x.name: x for x in dm.node.body if isinstance(x, ast.FunctionDef)}
+    for need in ("__setattr__", "_notify_placeholder_change", "subscribe_attribute"):
+        chk.need(need in inner, "NOTIFY-1", "DeviceMonitor installs %s" % need, dm)
+    sa = inner["__setattr__"]
+    scfg = build_cfg(sa)
+    notes = [(x, c_) for x, c_ in scfg.calls_named("_notify_placeholder_change")]
+    stores = [x for x, c_ in scfg.calls_named("old_setattr")] + \
+        [x for x in scfg.nodes if x.kind == "stmt" and isinstance(x.ast, ast.Assign) and "__dict__[name]" in src(x.ast.targets[0])]
+    exits = [x.id for x in scfg.nodes if x.kind == "exit"]
+    ok = len(stores) == 2 and scfg.path_avoiding(scfg.entry.id, exits, [x.id for x in stores]) is None
+    chk.ob("NOTIFY-1", "the monitored __setattr__ stores the value on every path", ok, dm.where(sa), construct=dm.ident, text="monitor store")
+    ok = len(notes) == 1 and all(notes[0][0].id in scfg.reachable([x.id], include_start=False) for x in stores) and \
+        [src(a) for a in notes[0][1].args] == ["self_inner", "attribute_name", "old", "value"] and canon_only(scfg.guards_at(notes[0][0].id), "attribute_name")
+    chk.ob("NOTIFY-1", "subscribers are notified after the store, with (device, attribute, old, new), whenever a monitored attribute was recognised",
+           ok, dm.where(sa), construct=dm.ident, text="monitor notify after store")
+    an = [x for x in scfg.nodes if x.kind == "stmt" and isinstance(x.ast, ast.Assign) and src(x.ast.targets[0]) == "attribute_name" and src(x.ast.value) != "False"]
+    want = {"name": "name in self._attributes_to_monitor", "self._aliased_attributes_to_monitor[name]": "name in self._aliased_attributes_to_monitor"}
+    ok = len(an) == 2
+    for x in an:
+        gx = scfg.guards_at(x.id)
+        w = want.get(src(x.ast.value))
+        allowed = {(w, True), ("old != value", True), ("old is not _sentinel", True), ("name not in self._attributes_to_monitor", True)}
+        ok = ok and w is not None and gx.get(w) is True and gx.get("old != value") is True and set(canon_items(gx)) <= allowed
+    chk.ob("NOTIFY-1", "a monitored attribute is recognised exactly when it already had a different value (direct name, or alias -> public name)", ok,
+           dm.where(sa), detail=str([src(x.ast.value) for x in an]), construct=dm.ident, text="monitor recognises change")
+    nf = inner["_notify_placeholder_change"]
+    ncfg = build_cfg(nf)
+    fut = "cls.attribute_futures[self_inner][attribute_name]"
+    loops = [x for x in ast.walk(nf) if isinstance(x, ast.For) and src(x.iter) == fut]
+    sets = [c_ for lp in loops for c_ in ast.walk(lp) if isinstance(c_, ast.Call) and call_attr(c_) == "set_result"]
+    clr = [x for x in ncfg.nodes if x.kind == "stmt" and isinstance(x.ast, ast.Assign) and src(x.ast.targets[0]) == fut and src(x.ast.value) in ("[]", "list()")]
+    ok = len(loops) == 1 and len(sets) == 1 and not any(isinstance(y, (ast.Break, ast.Return)) for y in ast.walk(loops[0]))
+    chk.ob("NOTIFY-1", "a change resolves every future waiting for that attribute of that device", ok, dm.where(nf), construct=dm.ident, text="all waiters resolved")
+    if loops and sets:
+        ln = [x for x in ncfg.nodes if x.kind == "loop" and x.ast is loops[0]][0]
+        sn = [x for x in ncfg.nodes if x.kind == "stmt" and any(y is sets[0] for y in x.walk())][0]
+        g1 = ncfg.guards_at(ln.id)
+        g2 = {k: v for k, v in ncfg.guards_at(sn.id).items() if k not in g1}
+        ok = canon_only(g1, "old != value") and all(k.replace(" ", "") in ("future.done()", "notfuture.done()") for k in g2)
+        chk.ob("NOTIFY-1", "waiters are resolved whenever old != new (only futures already done are skipped)", ok, dm.where(nf),
+               detail="%s / %s" % (sorted(g1.items()), sorted(g2.items())), construct=dm.ident, text="waiter guard")
+    ok = len(clr) == 1 and bool(loops) and clr[0].id in ncfg.reachable([x.id for x in ncfg.nodes if x.kind == "loop"], include_start=False)
+    chk.ob("NOTIFY-1", "resolved waiters are forgotten after they were resolved (a re-subscription is a new future)", ok, dm.where(nf), construct=dm.ident,
+           text="waiters cleared after resolve")
+    sb = inner["subscribe_attribute"]
+    app = [c_ for c_ in ast.walk(sb) if isinstance(c_, ast.Call) and call_attr(c_) == "append"]
+    ret = [x for x in ast.walk(sb) if isinstance(x, ast.Return)]
+    ok = len(app) == 1 and src(app[0].func.value) == "cls.attribute_futures[self_inner][item]" and len(ret) == 1 and src(ret[0].value) == src(app[0].args[0])
+    chk.ob("NOTIFY-1", "a subscription is filed under (device, attribute) - the key the notification reads - and the same future is returned", ok, dm.where(sb),
+           construct=dm.ident, text="subscription key")
+    inst = {src(x.targets[0]): src(x.value) for x in dm.node.body if isinstance(x, ast.Assign)}
+    ok = inst.get("cls.subscribe_attribute") == "subscribe_attribute" and inst.get("cls.notify_virtual_change") == "_notify_placeholder_change"
+    st_ = [x for x in ast.walk(dm.node) if isinstance(x, ast.Assign) and src(x.targets[0]) == "cls.__setattr__"]
+    ok = ok and len(st_) == 1 and src(st_[0].value) == "__setattr__"
+    chk.ob("NOTIFY-1", "the decorator installs its setter, subscribe_attribute and notify_virtual_change on the class", ok, dm.where(), construct=dm.ident,
+           text="monitor installation")
+
+
+def canon_items(g):
+    from sa.cfg import canon_set
+    c = canon_set(g)
+    return sorted(c.items()) if isinstance(c, dict) else sorted(c)
+
+
+def canon_only(g, text):
+    """the only dominating branch outcome (up to equivalent spellings) is `text` is True"""
+    items = canon_items(g)
+    return len(items) == 1 and items[0][0] == text and items[0][1] is True
 
 
 def _prefix(e):
@@ -509,6 +615,15 @@ def battery():
         M("twin: named functions for bool ops", PM, "BOOL_OPERATORS = {ast.And: lambda a, b: a and b, ast.Or: lambda a, b: a or b}", "BOOL_OPERATORS = {ast.And: lambda x, y: x and y, ast.Or: lambda x, y: x or y}", None),
         M("timed-enable placeholder re-arms the pulse placeholder", "mpf/devices/driver.py", "            future.add_done_callback(self._calculate_timed_enable_ms_placeholder)", "            future.add_done_callback(self._calculate_pulse_ms_placeholder)", "PAIR-19"),
         M("settings template subscribes to the setting's name", "mpf/core/settings_controller.py", "        return self._settings[setting_name].machine_var\n", "        return self._settings[setting_name].name\n", "TABLE-8"),
+        M("first value of a machine variable posts no event", "mpf/core/machine_vars.py", "        if change:\n            self._write_machine_var_to_disk(name)\n\n            self.debug_log(\"Setting machine_var", "        if change and prev_value is not None:\n            self._write_machine_var_to_disk(name)\n\n            self.debug_log(\"Setting machine_var", "NOTIFY-1"),
+        M("non-numeric machine variable changes are not detected", "mpf/core/machine_vars.py", "                change = prev_value != value", "                change = False", "NOTIFY-1"),
+        M("machine variable event posted before the store", "mpf/core/machine_vars.py", "        # set value\n        self.machine_vars[name]['value'] = value\n\n        if change:\n            self._write_machine_var_to_disk(name)\n", "        if change:\n            self.machine.events.post('machine_var_' + name, value=value, prev_value=prev_value, change=change)\n        # set value\n        self.machine_vars[name]['value'] = value\n\n        if change:\n            self._write_machine_var_to_disk(name)\n", "NOTIFY-1"),
+        M("device subscribers woken before the store", "mpf/core/device_monitor.py", "            if old_setattr:\n                old_setattr(self_inner, name, value)\n            else:\n                # Old-style class\n                self_inner.__dict__[name] = value\n\n            if attribute_name:\n                _notify_placeholder_change(self_inner, attribute_name, old, value)\n", "            if attribute_name:\n                _notify_placeholder_change(self_inner, attribute_name, old, value)\n\n            if old_setattr:\n                old_setattr(self_inner, name, value)\n            else:\n                # Old-style class\n                self_inner.__dict__[name] = value\n", "NOTIFY-1"),
+        M("only the first waiter of an attribute is woken", "mpf/core/device_monitor.py", "                    if not future.done():\n                        future.set_result(True)\n", "                    if not future.done():\n                        future.set_result(True)\n                        break\n", "NOTIFY-1"),
+        M("subscription filed under another key", "mpf/core/device_monitor.py", "            cls.attribute_futures[self_inner][item].append(future)", "            cls.attribute_futures[item][self_inner].append(future)", "NOTIFY-1"),
+        M("waiters forgotten before they are woken", "mpf/core/device_monitor.py", "                for future in cls.attribute_futures[self_inner][attribute_name]:\n                    if not future.done():\n                        future.set_result(True)\n                cls.attribute_futures[self_inner][attribute_name] = []", "                cls.attribute_futures[self_inner][attribute_name] = []\n                for future in cls.attribute_futures[self_inner][attribute_name]:\n                    if not future.done():\n                        future.set_result(True)", "NOTIFY-1"),
+        M("aliased attribute notified under its private name", "mpf/core/device_monitor.py", "                    attribute_name = self._aliased_attributes_to_monitor[name]", "                    attribute_name = name", "NOTIFY-1"),
+        M("twin: done futures skipped with continue", "mpf/core/device_monitor.py", "                    if not future.done():\n                        future.set_result(True)\n", "                    if future.done():\n                        continue\n                    future.set_result(True)\n", None),
     ]
 
 
